@@ -32,8 +32,8 @@ REPORTS = ('update_received', 'on_update_error', 'keepalive_received', 'open_rec
            'notification_received')
 
 
-def good(i):
-    return rc.keepalive() if i % 3 == 2 else ss.marked_update(i)[0]
+def good(i, as4=True):
+    return rc.keepalive() if i % 3 == 2 else ss.marked_update(i, asn4=as4)[0]
 
 
 def reports(sim, n0):
@@ -43,13 +43,15 @@ def reports(sim, n0):
 def run_case(case, with_bad=True):
     state = case['state']
     bad = rc.frame(case['type'], bytes.fromhex(case['body']))
-    sim, c = ss.new_established(upto=state, hold_time=180, idle_hold_time=5)
+    as4 = case.get('as4', True)
+    sim, c = ss.new_established(upto=state, hold_time=180, idle_hold_time=5, as4=as4,
+                                caps=[rc.cap_mp(1, 1), rc.cap(2), rc.cap(128)])
     r = sim.reactor
     out = []
-    seq = [('g', good(i + 1)) for i in range(case['pre'])]
+    seq = [('g', good(i + 1, as4)) for i in range(case['pre'])]
     if with_bad:
         seq.append(('b', bad))
-    seq += [('g', good(100 + i)) for i in range(case['post'])]
+    seq += [('g', good(100 + i, as4)) for i in range(case['post'])]
     per_msg = []
     for kind, data in seq:
         n0 = len(sim.handler.calls)
@@ -120,38 +122,41 @@ def check_case(case):
 
 
 # ------------------------------------------------------------------------------------------ bad bodies
-def ref_update_bodies():
-    a = rc.a_origin(0) + rc.a_as_path([(2, [65002, 65003]), (1, [100, 200])], True) + rc.a_next_hop('10.0.0.2')
+def ref_update_bodies(w4=True):
+    a = rc.a_origin(0) + rc.a_as_path([(2, [65002, 65003]), (1, [100, 200])], w4) + rc.a_next_hop('10.0.0.2')
     bodies = [
         rc.update_body(attrs=a, nlri=rc.prefix4('10.1.0.0/16') + rc.prefix4('10.2.3.0/24')),
         rc.update_body(withdrawn=rc.prefix4('10.9.0.0/16')),
         rc.update_body(attrs=a + rc.a_med(5) + rc.a_local_pref(100) + rc.a_communities([0xFFFFFF01, 65001 << 16 | 5]) +
                        rc.a_ext_communities([struct.pack('!HHI', 2, 100, 200)]) + rc.a_large_communities([(1, 2, 3)]) +
-                       rc.a_aggregator(65002, '1.1.1.1', True) + rc.a_originator('1.1.1.1') + rc.a_cluster_list(['2.2.2.2']),
+                       rc.a_aggregator(65002, '1.1.1.1', w4) + rc.a_originator('1.1.1.1') + rc.a_cluster_list(['2.2.2.2']),
                        nlri=rc.prefix4('10.1.0.0/16')),
-        rc.update_body(attrs=rc.a_origin(0) + rc.a_as_path([], True) + rc.a_mp_reach(2, 1, rc.ip6('2001:db8::1'), rc.prefix6('2001:db8:1::/48'))),
+        rc.update_body(attrs=rc.a_origin(0) + rc.a_as_path([(2, [65002])], w4) + rc.a_mp_reach(2, 1, rc.ip6('2001:db8::1'), rc.prefix6('2001:db8:1::/48'))),
         rc.update_body(attrs=rc.a_mp_unreach(2, 1, rc.prefix6('2001:db8:1::/48'))),
-        rc.update_body(attrs=rc.a_origin(0) + rc.a_as_path([], True) + rc.a_mp_reach(
+        rc.update_body(attrs=rc.a_origin(0) + rc.a_as_path([(2, [65002])], w4) + rc.a_mp_reach(
             1, 128, b'\x00' * 8 + rc.ip4('10.0.0.2'), rc.vpn_route('10.1.1.0/24', rc.rd('100:1'), [16]))),
-        rc.update_body(attrs=rc.a_origin(0) + rc.a_as_path([], True) + rc.a_mp_reach(
+        rc.update_body(attrs=rc.a_origin(0) + rc.a_as_path([(2, [65002])], w4) + rc.a_mp_reach(
             25, 70, rc.ip4('10.0.0.2'), rc.evpn_type2(rc.rd('100:1'), rc.esi(0, value=0), 5, '00-11-22-33-44-55', '10.0.0.9', [100]))),
-        rc.update_body(attrs=rc.a_origin(0) + rc.a_as_path([], True) + rc.a_mp_reach(
+        rc.update_body(attrs=rc.a_origin(0) + rc.a_as_path([(2, [65002])], w4) + rc.a_mp_reach(
             1, 133, b'', rc.fs_rule([rc.fs_prefix4(1, '10.0.0.0/24'), rc.fs_component(3, rc.fs_numeric([(0, '=', 6)]))]))),
-        rc.update_body(attrs=rc.a_origin(0) + rc.a_as_path([], True) + rc.a_mp_reach(16388, 71, rc.ip4('10.0.0.2'), b'') +
+        rc.update_body(attrs=rc.a_origin(0) + rc.a_as_path([(2, [65002])], w4) + rc.a_mp_reach(16388, 71, rc.ip4('10.0.0.2'), b'') +
                        rc.a_unknown(29, struct.pack('!HH', 1034, 9) + b'\x80\x00\x00\x00\x64\x04\x89\x00\x03', flags=0x80)),
     ]
     return bodies
 
 
-REF_BODIES = ref_update_bodies()
+REF_BODIES = ref_update_bodies(True) + ref_update_bodies(False)
 ATTR_TYPES = [1, 2, 3, 4, 5, 6, 7, 8, 9, 10, 14, 15, 16, 17, 18, 22, 23, 29, 32, 40, 99]
 
 
 @st.composite
 def bad_message(draw):
-    kind = draw(st.sampled_from(['mut-ref', 'mut-ref', 'vec-body', 'vec-attr', 'vec-mp', 'random', 'other-type', 'lsattr']))
+    kind = draw(st.sampled_from(['mut-ref', 'mut-ref', 'vec-body', 'vec-attr', 'vec-mp', 'random', 'other-type', 'lsattr', 'other-width']))
     mtype = rc.UPDATE
-    if kind == 'mut-ref':
+    if kind == 'other-width':
+        # a reference encoding in either AS-number width, unmutated: malformed for one of the two session modes
+        body = draw(st.sampled_from(REF_BODIES))
+    elif kind == 'mut-ref':
         b = bytearray(draw(st.sampled_from(REF_BODIES)))
         for _ in range(draw(st.integers(1, 4))):
             op = draw(st.sampled_from(['set', 'set', 'trunc', 'insert', 'dup']))
@@ -208,9 +213,9 @@ def bad_message(draw):
 
 
 case_strategy = st.builds(
-    lambda state, pre, post, bad: dict(state=state, pre=pre, post=post, type=bad['type'], body=bad['body'], kind=bad['kind']),
+    lambda state, pre, post, bad, as4: dict(state=state, pre=pre, post=post, type=bad['type'], body=bad['body'], kind=bad['kind'], as4=as4),
     st.sampled_from(['ESTABLISHED', 'ESTABLISHED', 'ESTABLISHED', 'OPENCONFIRM', 'OPENSENT']),
-    st.integers(0, 2), st.integers(1, 3), bad_message())
+    st.integers(0, 2), st.integers(1, 3), bad_message(), st.booleans())
 
 
 def shards(tier):
@@ -222,7 +227,7 @@ def run_shard(spec, seed, col, tier):
     def body(case):
         res, cls = check_case(case)
         col.case(case, len(case['body']) >= 2 and case['post'] >= 1,
-                 labels=['state:' + case['state'], 'kind:' + case['kind'], 'type:%d' % case['type'], 'outcome:' + cls])
+                 labels=['state:' + case['state'], 'kind:' + case['kind'], 'as4:%s' % case.get('as4', True), 'type:%d' % case['type'], 'outcome:' + cls])
         for sig, detail in res:
             col.fail(sig, case, detail)
     hyp_run(col, case_strategy, body, seed, spec['examples'])
